@@ -7,9 +7,9 @@ from datetime import datetime, timedelta
 warnings.simplefilter("ignore")
 
 TABLE_NAMES = {"T1": "Table 1", "t1": "TABLE 1", "T2": "Table 2", "t2": "table 2", "T3": "Table 3", "t3": "tAbLe 3",
-               "T4": "Table 4", "T5": "Table 5", "T6": "Table 6", "T7": "Table 7", "X": "Données", "x": "DONNÉES", "N0": ""}
+               "T4": "Table 4", "T5": "Table 5", "T6": "Table 6", "T7": "Table 7", "X": "Größe é", "x": "GRÖßE É", "N0": ""}     # (ß: lower-casing keeps it, case folding makes it ss)
 SHEET_NAMES = {"T1": "Sheet 1", "t1": "SHEET 1", "T2": "Sheet 2", "t2": "sheet 2", "T3": "Sheet 3", "t3": "sHeEt 3",
-               "T4": "Sheet 4", "T5": "Sheet 5", "T6": "Sheet 6", "T7": "Sheet 7", "X": "Données", "x": "DONNÉES", "N0": ""}
+               "T4": "Sheet 4", "T5": "Sheet 5", "T6": "Sheet 6", "T7": "Sheet 7", "X": "Größe é", "x": "GRÖßE É", "N0": ""}
 R_TABLE = {v: k for k, v in TABLE_NAMES.items()}
 R_SHEET = {v: k for k, v in SHEET_NAMES.items()}
 NONE_V = -99
